@@ -51,6 +51,19 @@ STRENGTHENED = {
     "C03-9": "missed at first; header opens with a pinned header length off by one were added (sanitized build; the context is freed after the refusal)",
     "C18-7": "missed at first (digests unchanged, the caller's buffer is damaged); C18 gained a writer+reader run through the API in both builds for every (overall, chunk) checksum type pair",
     "C20-9": "the lost bound is at the caller (header.c read_sig), not in the codec: caught by C03 and C13 (sanitized header parsing), not by C20",
+    "C02-11": "the header body is not hashed when a digest is pinned: outside the streaming reads C02 explores, caught by C06 (pinned sweep over every header byte)",
+    "C02-12": "missed at first; valid files whose content ends in (or consists of) whole blocks of zeros were added and every valid base file now goes through unzck with file output",
+    "C03-11": "missed at first; a hand-built zstd file with an empty-frame chunk (stored bytes, 0 uncompressed bytes) behind fully read chunks was added",
+    "C04-10": "cross-compression copy with the uncompressed-source flag on both sides: caught by C08; C04's scenarios use one compression type per pair",
+    "C06-10": "missed at first; the header harness now clears the error after a refusal and reads the header (and the lead) again: a mutant must not open on the second try either",
+    "C07-11": "missed at first; pinned lengths congruent to the real one modulo 2^31..2^62 were added (and type values beyond INT_MAX, which exposed the defect fixed in fc042ff)",
+    "C07-12": "missed at first; sequences that set the pins BEFORE zck_init_adv_read were added",
+    "C08-12": "missed at first; chunks with 32 KiB-aligned zero blocks copied over a target that already holds other bytes there were added",
+    "C11-11": "missed at first by C11 and caught by C09 only as a model/code disagreement; both gained chunks whose stored bytes are zeros",
+    "C11-12": "zck_validate_lead is not used by zckdl: caught by C07 after it gained 'a failed validate must leave the context ready: matching pins then open' (first only as a model/code disagreement)",
+    "C12-11": "missed at first; the tools are now also run under a short write followed by an error on the next write (second fault through ZH_FAULT2)",
+    "C12-12": "missed at first; a copy scenario whose target wants the same source chunk three times was added",
+    "C17-10": "missed at first; error / zck_clear_error steps inside sessions were added",
     "C01-3": "caught as HANG; the per-case watchdog was shortened so that the check stays fast",
 }
 
